@@ -78,7 +78,7 @@ impl CommitterKeyStream {
         exists|q: Seq<FS>| #[trigger] smp_rel(self, polynomial@, points@, r.0@, r.1.0@, q),   // name=streaming.space.open_multi_points.remainder_and_quotient_commitment_of_the_division_by_the_vanishing_polynomial props=C14,C01
 //@body
 //@rw 1 /let bases_init = self\.powers_of_g\.iter\(\);/ => let bases_unused__ = 0usize;
-//@rw 1 /let mut bases = bases_init\.skip\(self\.powers_of_g\.len\(\) - polynomial\.len\(\) \+ zeros\.degree\(\)\);/ => let bases_t__ = tail_g1(&self.powers_of_g, self.powers_of_g.len() - polynomial.len() + zeros.degree()); let mut bi__: usize = 0;
+//@rw 1 /let mut bases = bases_init\.skip\(([^;]*)\);/ => let bases_t__ = tail_g1(&self.powers_of_g, \1); let mut bi__: usize = 0;
 //@rw 1 /VecDeque::<E::ScalarField>::with_capacity\(points\.len\(\)\)/ => VDq::with_capacity(points.len())
 //@rw 1 /let mut polynomial_iterator = polynomial\.iter\(\);/ => let mut pi__: usize = 0;
 //@rw 1 /(?s)\(0\.\.points\.len\(\)\)\.for_each\(\|_\| \{\s*state\.push_back\(\*polynomial_iterator\.next\(\)\.unwrap\(\)\.borrow\(\)\);\s*\}\);/ => for _k in ita: 0..points.len() invariant pi__ == ita.index@, state.v@ =~= polynomial@.subrange(0, pi__ as int), m == points@.len(), m <= polynomial@.len(), { state.push_back(polynomial[pi__]); pi__ += 1; }
@@ -133,7 +133,7 @@ impl CommitterKeyStream {
         r.1.0@ == qsum(g1views(self.powers_of_g@.subrange(self.powers_of_g@.len() - polynomial@.len(), self.powers_of_g@.len() as int)), rev(fviews(polynomial@)), alpha@, polynomial@.len()),   // name=streaming.space.open.proof_commits_to_the_horner_quotient props=C14,C01
 //@body
 //@rw 1 /let bases_init = self\.powers_of_g\.iter\(\);/ => let bases_unused__ = 0usize;
-//@rw 1 /let bases = bases_init\.skip\(self\.powers_of_g\.len\(\) - polynomial\.len\(\)\);/ => let bases_t__ = tail_g1(&self.powers_of_g, self.powers_of_g.len() - polynomial.len());
+//@rw 1 /let bases = bases_init\.skip\(([^;]*)\);/ => let bases_t__ = tail_g1(&self.powers_of_g, \1);
 //@rw 1 /let scalars = polynomial\.iter\(\);/ => let scalars_unused__ = 0usize;
 //@rw 1 /scalars\.zip\(bases\)/ => polynomial.iter().zip(bases_t__.iter())
 //@rw 1 /scalar\.borrow\(\)/ => scalar
